@@ -491,6 +491,17 @@ def parse_mir(path, want=None):
     i, n = 0, len(lines)
     while i < n:
         line = lines[i]
+        cm = re.match(r"^const ([\w:]+): (.*?) = const (.+);$", line) if line.startswith("const ") else None
+        if cm and not cm.group(1).endswith("::_"):
+            # a named constant with a literal value (`const MAX: f64 = const 9007199254740992f64;`)
+            cur = MirFn(cm.group(1), [], cm.group(2), i + 1)
+            cur.is_named_const = True
+            cur.const_literal = cm.group(3)
+            cur.text_hash = hashlib.sha256(line.encode()).hexdigest()[:16]
+            cur._body = None
+            fns.append(cur)
+            i += 1
+            continue
         pm = re.match(r"^const (.*::promoted\[\d+\]): (.*) = \{$", line) if line.startswith("const ") else None
         if pm:
             # a promoted constant (`&CONST` lifted by rustc): a parameterless body
